@@ -35,7 +35,10 @@ Inductive event :=
 | EvChain (h : N)             (* chainFeed: ChainEvent{Header} *)
 | EvLogs (l : list N)         (* logsFeed: []*types.Log *)
 | EvRemoved (l : list N)      (* rmLogsFeed: RemovedLogsEvent *)
-| EvHead (h : N).             (* chainHeadFeed: ChainHeadEvent *)
+| EvHead (h : N)              (* chainHeadFeed: ChainHeadEvent *)
+| EvPurge.                    (* not a feed: bc.txLookupCache.Purge() (end of reorg, setHeadBeyondRoot,
+                                 a new BlockChain instance) -- what the cached public lookup path
+                                 BlockChain.GetCanonicalTransaction depends on; see Run/C38.v *)
 
 Record db := mkdb {
   known : list N; rcpt : N -> bool; avail : N -> bool; disk : N -> bool;
@@ -211,7 +214,7 @@ Definition reorg (fuel : nat) (st : db) (old new : hdr) : res (db * list event) 
             let number := match nc with _ :: x1 :: _ => hnum x1 | _ => hnum c end in
             match del_canon_from fuel (canon st2) (number + 1) with
             | None => Err EOutOfFuel
-            | Some c' => Ok (set_canon st2 c', removed ++ added)
+            | Some c' => Ok (set_canon st2 c', removed ++ added ++ [EvPurge])
             end
           end
         end
@@ -570,8 +573,8 @@ Definition set_head (fuel : nat) (st : db) (target : N) : outcome :=
     | Ok (st1, dels) =>
       let st2 := delete_heights st1 dels in
       (* loadLastState: head block must still be stored, else the chain is Reset *)
-      if negb (is_known st2 (hd_block st2)) then (st2, [], Some EHeadMissing)
-      else (st2, [EvHead (hd_block st2)], None)
+      if negb (is_known st2 (hd_block st2)) then (st2, [EvPurge], Some EHeadMissing)
+      else (st2, [EvPurge; EvHead (hd_block st2)], None)
     end
   end.
 
